@@ -78,6 +78,7 @@ func pre(op, path string) error {
 	if !sched.Active() {
 		return nil
 	}
+	sched.CheckDead()
 	Calls++
 	if Points {
 		sched.Point("os."+op, 0)
